@@ -30,4 +30,23 @@ structure MInfoG where
   refund : Acc → Option Int := fun _ => none
   deriving Inhabited
 
+namespace Go
+
+/-- the loop of Go's `sort.Search`: `i, j := 0, n; for i < j { h := int(uint(i+j) >> 1); if !f(h) { i = h + 1 } else { j = h } }`,
+    with the state the closure `f` carries threaded through; `fuel` bounds the iterations (`n` is enough) -/
+def sortSearchLoop {σ : Type} (f : Int → σ → Bool × σ) : Nat → Int → Int → σ → Int × σ
+  | 0, i, _, s => (i, s)
+  | fuel + 1, i, j, s =>
+    if i < j then
+      let h := (i + j) / 2
+      let r := f h s
+      if !r.1 then sortSearchLoop f fuel (h + 1) j r.2 else sortSearchLoop f fuel i h r.2
+    else (i, s)
+
+/-- `sort.Search(n, f)` -/
+def sortSearch {σ : Type} (n : Int) (f : Int → σ → Bool × σ) (s : σ) : Int × σ :=
+  sortSearchLoop f n.toNat 0 n s
+
+end Go
+
 end Fundraising
